@@ -64,6 +64,10 @@ func (f *Frame) callCommon(c *ssa.CallCommon, args []*Value, fnVal *Value, instr
 			return f.applyContract(fc, key, nil, c.Signature(), args, nil, pos)
 		}
 	}
+	// a call through a function value read from a struct field: `assert before.field.<name>:` site assertions
+	if fld := fieldOfFuncValue(c.Value); fld != "" && f.top && !f.dry && f.fc != nil && len(f.fc.Asserts) > 0 {
+		f.siteAsserts("field."+fld, pos, args...)
+	}
 	// any other dynamic call in this function: contract "<function>:dyn" if present
 	if fc := e.ct.Funcs[e.qual(f.fn)+":dyn"]; fc != nil {
 		return f.applyContract(fc, e.qual(f.fn)+":dyn", nil, c.Signature(), args, nil, pos)
@@ -633,4 +637,21 @@ func (e *Encoder) lookupType(name string, from *types.Package) types.Type {
 		t = types.NewPointer(t)
 	}
 	return t
+}
+
+// fieldOfFuncValue: the name of the struct field a called function value was loaded from ("" if it was not).
+func fieldOfFuncValue(v ssa.Value) string {
+	switch x := v.(type) {
+	case *ssa.UnOp:
+		if fa, ok := x.X.(*ssa.FieldAddr); ok && x.Op == token.MUL {
+			if st, ok := fa.X.Type().Underlying().(*types.Pointer).Elem().Underlying().(*types.Struct); ok {
+				return st.Field(fa.Field).Name()
+			}
+		}
+	case *ssa.Field:
+		if st, ok := x.X.Type().Underlying().(*types.Struct); ok {
+			return st.Field(x.Field).Name()
+		}
+	}
+	return ""
 }
